@@ -6,6 +6,5 @@ import (
 	"verifharness/tracelog"
 )
 
-func runC09(env tracelog.Env, log *tracelog.Log) error { return fmt.Errorf("not implemented") }
 func runC10(env tracelog.Env, log *tracelog.Log) error { return fmt.Errorf("not implemented") }
 func runC40(env tracelog.Env, log *tracelog.Log) error { return fmt.Errorf("not implemented") }
